@@ -773,7 +773,7 @@ class Parser(object):
         if not re.match(r"^(|.+)\|$", line):
             logger = logging.getLogger("behave")
             logger.warning(u"Malformed table row at %s: line %i",
-                           self.feature.filename, self.line)
+                           self.filename, self.line)
 
         # -- SUPPORT: Escaped-pipe(s) in Gherkin cell values.
         #    Search for pipe(s) that are not preceded with an escape char.
